@@ -9,6 +9,8 @@ import (
 	"github.com/jamespfennell/gtfs/extensions/nyctalerts"
 	"github.com/jamespfennell/gtfs/extensions/nycttrips"
 	vr "github.com/jamespfennell/gtfs/internal/verifrt"
+	gtfsrt "github.com/jamespfennell/gtfs/proto"
+	"google.golang.org/protobuf/proto"
 )
 
 func init() {
@@ -27,7 +29,7 @@ func Harness_C18_realtime() {
 	switch vr.Param("EXT", 0) {
 	case 1:
 		opts.Extension = nycttrips.Extension(nycttrips.ExtensionOpts{FilterStaleUnassignedTrips: vr.Bool("filter")})
-		msgBytes = vr.Marshal(hRealtimeMsg())
+		msgBytes = vr.Marshal(hNyctMsg())
 	case 2:
 		opts.Extension = nyctalerts.Extension(nyctalerts.ExtensionOpts{ElevatorAlertsDeduplicationPolicy: nyctalerts.DeduplicateInStation})
 		msgBytes = vr.Marshal(hElevatorMsg("a"))
@@ -81,4 +83,28 @@ func Harness_C18_static() {
 		}
 	})
 	vr.Assert("C18.conflict.readers", vr.ConflictFree("RA", "RB") && vr.WritesNothingShared("RA"))
+}
+
+// hNyctMsg: a trip update and the vehicle position of the same trip, both
+// carrying the NYCT trip descriptor and an NYCT-format trip id, plus a plain entity.
+func hNyctMsg() *gtfsrt.FeedMessage {
+	msg := hRealtimeMsg()
+	tid, _ := hNyctTripID("nyct.trip")
+	route := "M"
+	train := "T"
+	assigned := true
+	mk := func() *gtfsrt.TripDescriptor {
+		id := tid
+		td := &gtfsrt.TripDescriptor{TripId: &id, RouteId: &route}
+		proto.SetExtension(td, gtfsrt.E_NyctTripDescriptor, &gtfsrt.NyctTripDescriptor{TrainId: &train, IsAssigned: &assigned})
+		return td
+	}
+	sid := "M11N"
+	stu := &gtfsrt.TripUpdate_StopTimeUpdate{StopId: &sid}
+	track := "1"
+	proto.SetExtension(stu, gtfsrt.E_NyctStopTimeUpdate, &gtfsrt.NyctStopTimeUpdate{ActualTrack: &track})
+	msg.Entity = append(msg.Entity,
+		&gtfsrt.FeedEntity{Id: hStr("n1"), TripUpdate: &gtfsrt.TripUpdate{Trip: mk(), StopTimeUpdate: []*gtfsrt.TripUpdate_StopTimeUpdate{stu}}},
+		&gtfsrt.FeedEntity{Id: hStr("n2"), Vehicle: &gtfsrt.VehiclePosition{Trip: mk()}})
+	return msg
 }
